@@ -141,25 +141,38 @@ pub fn check_li(r: &mut Recorder, input: &[u8], exp: &Value) {
 /// judged: whatever a failed call leaves behind in the library (a scratch buffer drained on success only, a half-updated
 /// memo) lands in the very next successful call -- which then is the one under judgement.
 pub fn poison_calls() -> Vec<String> {
+    // ONE rejected call per round trip, in rotation: a later call of the battery could clean up what an earlier one left
+    // behind (a successful identifier parse inside a failing locale parse drains the identifier reader's scratch space)
+    use std::sync::atomic::{AtomicUsize, Ordering};
+    static TURN: AtomicUsize = AtomicUsize::new(0);
     const LI: &[&[u8]] = &[b"zz-Zzzz-ZZ-poisonv1-poisonv2-u", b"zz-poisonv1-1xyz-!!", b"zz-poisonv3-u-ca-gregory"];
     const LOC: &[&[u8]] = &[b"zz-u-poisona1-poisona2-h0", b"zz-u-ca-poisont1-!!", b"zz-t-zz-poisonv4-h0-poisontv-!!",
                             b"zz-t-h0-poisontv-!!", b"zz-x-poisonp1-toolongpoison", b"zz-poisonv5-poisonv6-u-!!"];
     const EXT: &[&[u8]] = &[b"u-poisona3-h0", b"t-h0-poisontv-!!", b"x-poisonp2-toolongpoison"];
     let mut accepted: Vec<String> = Vec::new();
-    for p in LI { if LanguageIdentifier::from_bytes(p).is_ok() { accepted.push(show(p)); } }
-    for p in LOC { if Locale::from_bytes(p).is_ok() { accepted.push(show(p)); } }
-    for p in EXT { if ExtensionsMap::from_bytes(p).is_ok() { accepted.push(show(p)); } }
-    // failing mutator calls on a scratch value: valid members first, the malformed one last
-    let mut scratch = Locale::default();
-    let _ = scratch.extensions.unicode.set_keyword("ca", &["poisonk1", "poisonk2", "!"]);
-    let _ = scratch.extensions.transform.set_tfield("h0", &["poisonf1", "poisonf2", "!"]);
-    let _ = scratch.extensions.unicode.set_attribute("poison!");
-    let _ = scratch.extensions.private.add_tag("toolongpoison");
-    let _ = scratch.extensions.unicode.set_keyword("!", &["poisonk3"]);
-    let _ = scratch.extensions.transform.set_tfield("!", &["poisonf3"]);
-    if !scratch.extensions.is_empty() { accepted.push(format!("mutators: {}", scratch)); }
-    let _ = Language::from_bytes(b"poison!");
-    let _ = Variant::from_bytes(b"poisonvr!");
+    let k = TURN.fetch_add(1, Ordering::Relaxed) % (LI.len() + LOC.len() + EXT.len() + 7);
+    if k < LI.len() {
+        if LanguageIdentifier::from_bytes(LI[k]).is_ok() { accepted.push(show(LI[k])); }
+    } else if k < LI.len() + LOC.len() {
+        let p = LOC[k - LI.len()];
+        if Locale::from_bytes(p).is_ok() { accepted.push(show(p)); }
+    } else if k < LI.len() + LOC.len() + EXT.len() {
+        let p = EXT[k - LI.len() - LOC.len()];
+        if ExtensionsMap::from_bytes(p).is_ok() { accepted.push(show(p)); }
+    } else {
+        // a failing mutator call on a scratch value: valid members first, the malformed one last
+        let mut scratch = Locale::default();
+        match k - LI.len() - LOC.len() - EXT.len() {
+            0 => { let _ = scratch.extensions.unicode.set_keyword("ca", &["poisonk1", "poisonk2", "!"]); }
+            1 => { let _ = scratch.extensions.transform.set_tfield("h0", &["poisonf1", "poisonf2", "!"]); }
+            2 => { let _ = scratch.extensions.unicode.set_attribute("poison!"); }
+            3 => { let _ = scratch.extensions.private.add_tag("toolongpoison"); }
+            4 => { let _ = scratch.extensions.unicode.set_keyword("!", &["poisonk3"]); }
+            5 => { let _ = scratch.extensions.transform.set_tfield("!", &["poisonf3"]); }
+            _ => { let _ = Language::from_bytes(b"poison!"); let _ = Variant::from_bytes(b"poisonvr!"); }
+        }
+        if !scratch.extensions.is_empty() { accepted.push(format!("mutators: {}", scratch)); }
+    }
     accepted
 }
 
